@@ -85,7 +85,8 @@ class C02(Prop):
                 segs.append(d)
                 cur = d["p"][-1]
             yield {"k": "path", "start": segs[0]["p"][0], "segs": segs, "M": gen.matrix_invertible(rng),
-                   "route": rng.choice(["ctor", "add", "extend", "append", "iadd"]), "close": rng.random() < 0.3}
+                   "route": rng.choice(["ctor", "add", "extend", "append", "iadd"]), "close": rng.random() < 0.3,
+                   "submove": rng.random() < 0.5, "nostart": rng.random() < 0.3}
         for i in range(n // 4):
             yield {"k": "shape", "shape": rand_shape(rng), "M": gen.matrix_invertible(rng),
                    "pre": gen.matrix_invertible(rng) if rng.random() < 0.3 else None}
@@ -107,23 +108,34 @@ class C02(Prop):
         mv = Move(Point(*case["start"]))
         route = case["route"]
         tail = [Close(Point(*case["segs"][-1]["p"][-1]), Point(*case["start"]))] if case["close"] else []
+        # a second subpath with its own move (start unknown), as a parser or a user would build it
+        h = max(1, len(segs) // 2)
+        if case.get("submove") and len(segs) > 1:
+            segs = segs[:h] + [Move(Point(*case["segs"][h]["p"][0]))] + segs[h:]
+            h2 = h
+        else:
+            h2 = None
+        if case.get("nostart") and route in ("append", "iadd"):
+            for sg in segs:
+                if isinstance(sg, Line):
+                    sg.start = None
         if route == "ctor":
             return Path(mv, *segs, *tail)
         if route == "add":
-            h = max(1, len(segs) // 2)
-            return Path(mv, *segs[:h]) + Path(*segs[h:], *tail)
+            k = h2 if h2 is not None else h
+            return Path(mv, *segs[:k]) + Path(*segs[k:], *tail)
         if route == "iadd":
             p = Path(mv)
-            for s in segs + tail:
-                p += s
+            for sg in segs + tail:
+                p += sg
             return p
         if route == "extend":
             p = Path(mv)
             p.extend(segs + tail)
             return p
         p = Path(mv)
-        for s in segs + tail:
-            p.append(s)
+        for sg in segs + tail:
+            p.append(sg)
         return p
 
     def impl(self, case):
@@ -157,9 +169,10 @@ class C02(Prop):
                 p2 = [geo.sample(x, geo.TS[:5]) for x in r]
                 sub = self._build_path(case)
                 sp = sub.subpath(0)
+                n0 = len(sp)
                 sp *= M
                 p3 = [geo.sample(x, geo.TS[:5]) for x in sub]
-                return {"kinds": kinds, "p0": p0, "p1": p1, "p2": p2, "p3": p3, "kinds1": [geo.kind(x) for x in q],
+                return {"kinds": kinds, "p0": p0, "p1": p1, "p2": p2, "p3": p3, "kinds1": [geo.kind(x) for x in q], "n0": n0,
                         "scale": max(geo.seg_scale(x) for x in p)}
             if k == "shape":
                 sh = build_shape(case["shape"])
@@ -245,7 +258,11 @@ class C02(Prop):
                 if len(got) != len(want):
                     fs.append(Failure(what="%s changed the number of segments" % what, case=case))
                     continue
-                d = max(geo.pdist(a, b) for sg, sw in zip(got, want) for a, b in zip(sg, sw))
+                wantx = want
+                if name == "p3":
+                    # only the first subpath is transformed; the rest of the backing path must be untouched
+                    wantx = want[:obs["n0"]] + obs["p0"][obs["n0"]:]
+                d = max(geo.pdist(a, b) for sg, sw in zip(got, wantx) for a, b in zip(sg, sw))
                 if d > t1:
                     fs.append(Failure(what="%s is not the matrix image of the path, deviation %.3g" % (what, d), case=case,
                                       observed=got, expected=want))
